@@ -164,7 +164,10 @@ def exhaustive_slice(tier):
                     yield from emit([L, P], [{"cls": "P", "dest": "a", "prefix": ""}], mode, cfg)
     # dotted user prefixes (a prefix that looks like a generated one)
     L = {"name": "L", "fields": [leaf("x"), leaf("y")]}
-    for pfx in (["a.", ""], ["a.", "a."], ["b.", ""], ["a.", "b."], ["", "a."]):
+    # (the last rows: user prefixes with MORE dotted words than the destination has - AUTO has no word left to add and
+    #  must say so with ConflictResolutionError, fix 00d3779 - and a prefix mixing '_' and '.')
+    for pfx in (["a.", ""], ["a.", "a."], ["b.", ""], ["a.", "b."], ["", "a."], ["p.q.", "p.q."], ["p.q.r.", "p.q.r."],
+                ["p.q.", ""], ["p.q.", "p."], ["p_q.r.", "p_q.r."], ["p.", "p."], ["p_", "p_"]):
         for mode in MODES:
             yield from emit([L], [{"cls": "L", "dest": d, "prefix": p} for d, p in zip(["a", "b"], pfx)], mode)
 
@@ -200,7 +203,7 @@ def random_forest(rng):
     regs = []
     for d in dests:
         cls = rng.choice(classes[-2:] if rng.random() < 0.7 else classes)["name"]
-        regs.append({"cls": cls, "dest": d, "prefix": rng.choice(["", "", "", "", "p_", "q_", d + ".", "a."])})
+        regs.append({"cls": cls, "dest": d, "prefix": rng.choice(["", "", "", "", "p_", "q_", d + ".", "a.", "p.q.", "p.q.r.", "p.", "p_q."])})
     # keep only reachable classes
     used = set()
 
